@@ -156,6 +156,38 @@ fn c13_keys(b: usize, l: usize, depth: u8) {
     vassert!(same_log(&first, &second), "C13: output of a depth-limited search depends on the hash keys drawn at start-up");
     vcover!(first.1 >= 2 && has_moves_at(0, 0), "info line and bestmove with a move");
 }
+/// ucinewgame alone (no searches): whatever earlier searches and position commands can leave behind is gone -
+/// every field equals a freshly started engine's (quick-tier version of c13_newgame_*).
+fn c13_newgame_fields() {
+    setup_game(2, 1);
+    unsafe { HC.order_identity = true; }
+    let mut f = Flounder::new();
+    {
+        let (a, b) = (sym::u8() as usize, sym::u8() as usize); sym::assume(a < 64 && b < 64);
+        let v = sym::i32(); sym::assume(v != 0);
+        let ply = sym::u8(); sym::assume(ply < 8);
+        let km = mk_move(0, 0);
+        let sm = u::searcher_mut(&mut f);
+        crate::history::vh::set_cell(crate::search::vh::history_mut(sm), a, b, v);
+        crate::search::vh::killers_mut(sm).store(km, ply);
+        crate::search::vh::tt_mut(sm).store(sym::u64(), sym::i32(), Some(km), sym::u8(), crate::transposition::Bounds::Exact);
+        crate::search::vh::rep_mut(sm).push(sym::u64());
+        u::board_mut(&mut f).make_move(&km);
+    }
+    u::command(&mut f, "ucinewgame");
+    let s = u::searcher(&f);
+    vassert!(crate::transposition::vh::map(crate::search::vh::tt(s)).len() == 0, "C13: transposition table not empty after ucinewgame");
+    vassert!(crate::search::vh::rep_len(s) == 0, "C13: game history not empty after ucinewgame");
+    let ply = sym::u8(); sym::assume(ply < 8);
+    let k = crate::search::vh::killers(s).get_killers(ply);
+    vassert!(k[0].is_none() && k[1].is_none(), "C13: killer moves survive ucinewgame");
+    let a = sym::u8() as usize; let b = sym::u8() as usize; sym::assume(a < 64 && b < 64);
+    vassert!(crate::history::vh::cell(crate::search::vh::history(s), a, b) == 0, "C13: history scores survive ucinewgame");
+    vassert!(u::board(&f).node() == 0 && u::board(&f).lvl() == 0, "C13: board not reset by ucinewgame");
+    vcover!(ply == 3 && a == 5, "a later killer ply and history row are inspected");
+    core::mem::forget(f);
+}
+uci_harness!(c13_newgame_state, 20, { c13_newgame_fields(); });
 /// After ucinewgame the engine's state and its next answer equal a fresh engine's.
 fn c13_newgame(b: usize, l: usize, depth: u8) {
     setup_game(b, l);
@@ -170,6 +202,7 @@ fn c13_newgame(b: usize, l: usize, depth: u8) {
     vcover!(fresh.1 >= 2 && has_moves_at(0, 0), "info line and bestmove with a move");
 }
 macro_rules! det_harness { ($name:ident, $unwind:literal, $body:block) => { uci_harness!($name, $unwind, { $body }); }; }
+det_harness!(c13_keys_d1_b1, 20, { c13_keys(1, 1, 1); });
 det_harness!(c13_keys_d1_b2, 20, { c13_keys(2, 1, 1); });
 det_harness!(c13_keys_d1_b2_q1, 20, { c13_keys(2, 2, 1); });
 det_harness!(c13_keys_d2_b2, 20, { c13_keys(2, 2, 2); });
